@@ -38,7 +38,8 @@ def gen_fields(rng, allow_message=True):
 def gen_case(rng, fmt=None):
     fmt = fmt or rng.choice(['full', 'full', 'compact', 'pretty', 'json'])
     cfg = [fmt, 't%d' % rng.randrange(2), 'l%d' % (1 if rng.random() < 0.8 else 0), 'i%d' % rng.randrange(2), 'n%d' % rng.randrange(2),
-           'f%d' % rng.randrange(2), 'L%d' % rng.randrange(2), 's%d' % rng.choice([0, 0, 1, 8, 9, 15, rng.randrange(16)])]
+           'f%d' % rng.randrange(2), 'L%d' % rng.randrange(2), 's%d' % rng.choice([0, 0, 1, 8, 9, 15, rng.randrange(16)]),
+           'O%d' % rng.randrange(2)]        # O1: display options set before the format is selected
     if fmt == 'json': cfg += ['c%d' % rng.randrange(2), 'S%d' % rng.randrange(2), 'F%d' % rng.randrange(2)]
     w = gen_w(rng, rng.choice([0, 1, 2, 3, 3]), [1])
     ops = []; nsp = 0; stack = []; open_spans = []
